@@ -488,12 +488,16 @@ MANIFEST_TEXT["C19"] = dict(
          "satisfies the structural laws of C17, and every layer's storage equals the reference `expectedStorageC` over the interleaved "
          "call log — every enabled item captured exactly once in log order, parent = nearest captured ancestor of what the calling "
          "thread's own stack (or the explicit parent) dictates, counts, follows edges, closed flags (C19_all_schedules); the log "
-         "restricted to a thread is that thread's own call sequence in emission order (C19_thread_order). Partial in the sense of "
+         "restricted to a thread is that thread's own call sequence in emission order (C19_thread_order); a field of a span shared by several "
+         "threads holds the last value written to it in the interleaved log, hence the last value of the only thread that writes it "
+         "(C19_no_lost_update, C19_own_field_final). Partial in the sense of "
          "DESIGN §4: lock atomicity and the memory model are assumed. Tied to the code by forced schedules on real threads (one "
          "operation at a time, storage compared with the model) and by 2-16 free-running threads checked per thread against the "
-         "single-threaded reference run and the C17 laws.",
+         "single-threaded reference run and the C17 laws, with one field per thread on the shared spans (final value = the thread's last "
+         "record) and record storms that re-read the storage after every record (probe of the atomicity assumption).",
     note=_CAP_NOTE + "Assumed, not modelled: RwLock atomicity of callbacks, memory model, OS scheduling; the Registry's thread_local slot recycling is avoided by keeping harness threads alive.",
     technique="Lean 4 proof (registry reference-count invariant over all interleavings, simulation against a declarative reference) + forced-schedule correspondence + free-running per-thread projection oracle")
 
 PROPS["C02"]["extra_modules"] = ["TT.Props.C02Quiescence", "TT.Props.C02GuestLevel"]
 PROPS["C01"]["extra_modules"] = ["TT.Props.C01General"]
+PROPS["C19"]["extra_modules"] = ["TT.Props.C19NoLostUpdate"]
